@@ -342,6 +342,54 @@ def holeEnv (env : Env V) (vs : List V) : Env V where
     | none => env.free n
   meas := env.meas
 
+/-- a table of templates: class name ↦ template (generated from `ops.py`, see `SFV/Gen/Templates.lean`) -/
+def lookupT (tbl : List (String × List TCmd)) (cls : String) : Option (List TCmd) :=
+  (tbl.find? (·.1 == cls)).map (·.2)
+
+/-! ### `Compiler.decompose`: recursive decomposition of a whole circuit -/
+
+/-- a command of a circuit: like `TCmd`, but `regs` are the subsystems it acts on -/
+structure PCmd where
+  cls : String
+  pars : List Expr
+  regs : List Nat
+  dagger : Bool := false
+deriving DecidableEq, Repr, Inhabited
+
+/-- the template command on the subsystems of the decomposed command (`reg`, `reg[i]`) -/
+def placeCmd (regs : List Nat) (c : TCmd) : PCmd :=
+  ⟨c.cls, c.pars, c.regs.map (fun i => regs.getD i 0), c.dagger⟩
+
+/-- `cmd.op.decompose(cmd.reg)` -/
+def stepCmd (tbl : List (String × List TCmd)) (c : PCmd) : Option (List PCmd) :=
+  (lookupT tbl c.cls).map fun t => (decomposeWith t c.pars c.dagger).map (placeCmd c.regs)
+
+/-- `Compiler.decompose(seq)`: every command whose class the compiler lists under `decompositions`
+(`dec`) is replaced by its decomposition, recursively (`fuel` bounds the depth; the deepest chain of
+`ops.py`, CZgate → CXgate → primitives, has depth 2); everything else is kept -/
+def expand (tbl : List (String × List TCmd)) (dec : String → Bool) : Nat → List PCmd → List PCmd
+  | 0, cs => cs
+  | fuel + 1, cs => cs.flatMap fun c =>
+      if dec c.cls then
+        match stepCmd tbl c with
+        | some l => expand tbl dec fuel l
+        | none => [c]
+      else [c]
+
+def PCmd.subst (σ : Subst) (c : PCmd) : PCmd := { c with pars := c.pars.map (SFV.Param.subst σ) }
+
+/-- what the backend sees of a command -/
+def PCmd.sem [ValOps V] (env : Env V) (c : PCmd) : String × List Nat × Bool × Except PErr (List V) :=
+  (c.cls, c.regs, c.dagger, c.pars.mapM (eval env))
+
+/-- no template mentions a measured parameter -/
+def closedTable (tbl : List (String × List TCmd)) : Bool :=
+  tbl.all fun p => p.2.all fun c => c.pars.all fun e => (measAtoms e).isEmpty
+
+/-- the names of the holes and constants the templates use -/
+def tableAtoms (tbl : List (String × List TCmd)) : List String :=
+  tbl.flatMap fun p => p.2.flatMap fun c => c.pars.flatMap freeAtoms
+
 /-- evaluated parameters of a command (what `_apply` hands to the backend) -/
 def TCmd.evalPars [ValOps V] (env : Env V) (c : TCmd) : Except PErr (List V) := c.pars.mapM (eval env)
 
@@ -363,6 +411,7 @@ inductive Cmd (V : Type)
   | measure (modes : List Nat) (outcomes : List V)   -- a Measurement with scripted outcomes
   | prepare (mode : Nat)                              -- (re-)preparation: does not touch RegRef.val
   | use (e : Expr)                                    -- an operation with parameter `e` is applied
+  | useArr (es : List Expr)                           -- … with an array-valued parameter (object array of expressions)
 deriving Repr
 
 abbrev Regs (V : Type) := Nat → Option V
@@ -394,6 +443,11 @@ def runCmds [ValOps V] (free : String → Option V) (r : Regs V) : List (Cmd V) 
   | .use e :: rest =>
     match eval ⟨free, r⟩ e with
     | .ok v => let o := runCmds free r rest; ⟨v :: o.trace, o.fin⟩
+    | .error err => ⟨[], .error err⟩
+  | .useArr es :: rest =>
+    -- `par_evaluate` evaluates every element before the operation is applied: all or nothing
+    match es.mapM (eval ⟨free, r⟩) with
+    | .ok vs => let o := runCmds free r rest; ⟨vs ++ o.trace, o.fin⟩
     | .error err => ⟨[], .error err⟩
 
 /-- engine state: `started` = a program has been run since construction / `reset` (`run_progs`
